@@ -10,6 +10,7 @@ pub mod c09;
 pub mod c11;
 pub mod c13;
 pub mod c14;
+pub mod c15;
 pub mod c16;
 pub mod c17;
 pub mod c19;
@@ -34,6 +35,7 @@ pub fn dispatch(id: &str, tier: Tier, seed: u64) -> Option<i32> {
         "C11" => c11::run(tier, seed),
         "C13" => c13::run(tier, seed),
         "C14" => c14::run(tier, seed),
+        "C15" => c15::run(tier, seed),
         "C19" => c19::run(tier, seed),
         "C16" => c16::run(tier, seed),
         "C17" => c17::run(tier, seed),
@@ -48,6 +50,9 @@ pub fn replay_kind(kind: &str, j: &serde_json::Value) -> Option<Vec<String>> {
         "parse" => Some(c09::replay_parse(j)),
         "bind" => Some(c11::replay_bind(j)),
         "dig" => Some(c16::replay_dig(j)),
+        "maporder" => Some(c15::replay_maporder(j)),
+        "static" => Some(c15::replay_static(j)),
+        "none" => Some(j["observed"].as_array().map(|a| a.iter().map(|x| x.as_str().unwrap_or("").to_string()).collect()).unwrap_or_default()),
         "layout" => Some(c20::replay_layout(j)),
         _ => None,
     }
